@@ -59,3 +59,332 @@ Theorem C09_assemble_order_unobservable :
     forall x y, x < w -> y < h -> assemble dflt w h t tiles x y = assemble dflt w h t tiles' x y.
 Proof. exact @assemble_order_unobservable. Qed.
 Print Assumptions C09_assemble_order_unobservable.
+
+(* ---- the multithreaded octree build (fidget-mesh/src/octree.rs build_inner_mt), theories/
+   OctreeMerge.v: breadth-first expansion to the task count, independent local builds, offset
+   remapping, slot stores, reverse fix-up walk.  For EVERY task count the merged array denotes
+   the pure recombination of the task results (build_mt_spec: no index, offset or ordering
+   error); it equals the single-threaded octree exactly when that recombination equals the
+   single-threaded tree (M2_exact), which holds under interval coherence and tape independence
+   (M2_main, M2_threads) and can fail without either (two refutations): the multithreaded build
+   skips the interval test on the cells it expands and evaluates tasks with the unsimplified
+   tape.  Cancellation is all-or-nothing (M4).  depth = 0 with a thread pool panics. ---- *)
+From Coq Require Import List Arith Lia Bool.
+From FV Require Import OctreeMerge.
+Import ListNotations.
+
+From FV Require Import OctreeMergeSound.
+
+Theorem C09_M1_extend :
+  forall (vertex : Type) (nverts : nat -> nat) (cs : list (list cell)) 
+         (vs : list vertex) (lb : nat) (c : cell) (a : atree vertex) (more : list (list cell))
+         (morev : list vertex),
+       den nverts cs vs lb c a -> den nverts (cs ++ more) (vs ++ morev) lb c a.
+Proof. exact (@M1_extend). Qed.
+Print Assumptions C09_M1_extend.
+
+Theorem C09_M1_remap :
+  forall (vertex : Type) (nverts : nat -> nat) (lcs : list (list cell)) 
+         (lvs : list vertex) (lb : nat) (c : cell) (a : atree vertex),
+       den nverts lcs lvs lb c a ->
+       forall (pre : list (list cell)) (vpre : list vertex) (post : list (list cell))
+         (vpost : list vertex) (rcs : list (list cell)) (c' : cell),
+       map_opt (remap_block (length pre) (length vpre)) lcs = Some rcs ->
+       remap_cell (length pre) (length vpre) c = Some c' ->
+       den nverts (pre ++ rcs ++ post) (vpre ++ lvs ++ vpost) (length pre + lb) c' a.
+Proof. exact (@M1_remap). Qed.
+Print Assumptions C09_M1_remap.
+
+Theorem C09_build_mt_spec :
+  forall (vertex herm tape : Type) (hdef : herm) (root_tape : tape) 
+         (max_depth : nat) (interval : tape -> path -> ires tape)
+         (leaf_eval : tape -> path -> herm -> lres vertex herm)
+         (collapsible : list ckind -> option nat) (hmerge : list herm -> option herm)
+         (hsolve : path -> nat -> herm -> option (herm * list vertex)) 
+         (nverts : nat -> nat),
+       (forall (t : tape) (p : path) (h : herm) (m : nat) (vs : list vertex) (h' : herm),
+        leaf_eval t p h = LLeaf m vs h' -> length vs = nverts m) ->
+       (forall (p : path) (m : nat) (h h2 : herm) (vs : list vertex),
+        hsolve p m h = Some (h2, vs) -> length vs = nverts m) ->
+       forall (cmt : nat -> nat -> bool) (target : nat),
+       let K := K_of target in
+       if tasks_cancel root_tape max_depth interval cmt 0 (seq K (7 * K + 1))
+       then
+        build_mt hdef root_tape max_depth interval leaf_eval collapsible hmerge hsolve cmt target =
+        Cancel
+       else
+        if K =? 0
+        then
+         build_mt hdef root_tape max_depth interval leaf_eval collapsible hmerge hsolve cmt target =
+         Panic
+        else
+         exists o : octree vertex,
+           build_mt hdef root_tape max_depth interval leaf_eval collapsible hmerge hsolve cmt
+             target = Ok o /\
+           wf_octree nverts o
+             (fst (Dmt hdef root_tape max_depth interval leaf_eval collapsible hmerge hsolve K 0)) /\
+           blocks_ok o.
+Proof. exact (@build_mt_spec). Qed.
+Print Assumptions C09_build_mt_spec.
+
+Theorem C09_M2_exact :
+  forall (vertex herm tape : Type) (hdef : herm) (root_tape : tape) 
+         (max_depth : nat) (interval : tape -> path -> ires tape)
+         (leaf_eval : tape -> path -> herm -> lres vertex herm)
+         (collapsible : list ckind -> option nat) (hmerge : list herm -> option herm)
+         (hsolve : path -> nat -> herm -> option (herm * list vertex)) 
+         (nverts : nat -> nat),
+       (forall (t : tape) (p : path) (h : herm) (m : nat) (vs : list vertex) (h' : herm),
+        leaf_eval t p h = LLeaf m vs h' -> length vs = nverts m) ->
+       (forall (p : path) (m : nat) (h h2 : herm) (vs : list vertex),
+        hsolve p m h = Some (h2, vs) -> length vs = nverts m) ->
+       forall (cmt : nat -> nat -> bool) (canc : nat -> bool) (target : nat)
+         (omt ost : octree vertex),
+       build_mt hdef root_tape max_depth interval leaf_eval collapsible hmerge hsolve cmt target =
+       Ok omt ->
+       build_st hdef root_tape max_depth interval leaf_eval collapsible hmerge hsolve canc = Ok ost ->
+       abs nverts omt = abs nverts ost <->
+       fst
+         (Dmt hdef root_tape max_depth interval leaf_eval collapsible hmerge hsolve (K_of target) 0) =
+       T_st hdef root_tape max_depth interval leaf_eval collapsible hmerge hsolve.
+Proof. exact (@M2_exact). Qed.
+Print Assumptions C09_M2_exact.
+
+Theorem C09_M2_main :
+  forall (vertex herm tape : Type) (hdef : herm) (root_tape : tape) 
+         (max_depth : nat) (interval : tape -> path -> ires tape)
+         (leaf_eval : tape -> path -> herm -> lres vertex herm)
+         (collapsible : list ckind -> option nat) (hmerge : list herm -> option herm)
+         (hsolve : path -> nat -> herm -> option (herm * list vertex)) 
+         (nverts : nat -> nat),
+       (forall (t : tape) (p : path) (h : herm) (m : nat) (vs : list vertex) (h' : herm),
+        leaf_eval t p h = LLeaf m vs h' -> length vs = nverts m) ->
+       (forall (p : path) (m : nat) (h h2 : herm) (vs : list vertex),
+        hsolve p m h = Some (h2, vs) -> length vs = nverts m) ->
+       forall V : tape -> path -> Prop,
+       (forall p : path, V root_tape p) ->
+       (forall (t : tape) (p : path) (sub : tape), V t p -> interval t p = IAmbig sub -> V sub p) ->
+       (forall (t : tape) (p : path) (sub : tape) (i : nat),
+        V t p -> interval t p = IAmbig sub -> i < 8 -> V sub (p ++ [i])) ->
+       (forall (t t' : tape) (p : path), V t p -> V t' p -> ires_sim (interval t p) (interval t' p)) ->
+       (forall (t t' : tape) (p : path) (h : herm),
+        V t p -> V t' p -> leaf_eval t p h = leaf_eval t' p h) ->
+       (forall (p : list nat) (i : nat),
+        length p < max_depth ->
+        i < 8 ->
+        interval root_tape p = IFull ->
+        fst
+          (T hdef interval leaf_eval collapsible hmerge hsolve (max_depth - S (length p)) root_tape
+             (p ++ [i]) hdef) = AFull) ->
+       (forall (p : list nat) (i : nat),
+        length p < max_depth ->
+        i < 8 ->
+        interval root_tape p = IEmpty ->
+        fst
+          (T hdef interval leaf_eval collapsible hmerge hsolve (max_depth - S (length p)) root_tape
+             (p ++ [i]) hdef) = AEmpty) ->
+       forall (cmt : nat -> nat -> bool) (canc : nat -> bool) (target : nat),
+       2 <= target <= 8 ^ max_depth ->
+       build_mt hdef root_tape max_depth interval leaf_eval collapsible hmerge hsolve cmt target <>
+       Cancel ->
+       build_st hdef root_tape max_depth interval leaf_eval collapsible hmerge hsolve canc <>
+       Cancel ->
+       exists omt ost : octree vertex,
+         build_mt hdef root_tape max_depth interval leaf_eval collapsible hmerge hsolve cmt target =
+         Ok omt /\
+         build_st hdef root_tape max_depth interval leaf_eval collapsible hmerge hsolve canc =
+         Ok ost /\
+         abs nverts omt =
+         Some (T_st hdef root_tape max_depth interval leaf_eval collapsible hmerge hsolve) /\
+         abs nverts ost =
+         Some (T_st hdef root_tape max_depth interval leaf_eval collapsible hmerge hsolve).
+Proof. exact (@M2_main). Qed.
+Print Assumptions C09_M2_main.
+
+Theorem C09_M2_threads :
+  forall (vertex herm tape : Type) (hdef : herm) (root_tape : tape) 
+         (max_depth : nat) (interval : tape -> path -> ires tape)
+         (leaf_eval : tape -> path -> herm -> lres vertex herm)
+         (collapsible : list ckind -> option nat) (hmerge : list herm -> option herm)
+         (hsolve : path -> nat -> herm -> option (herm * list vertex)) 
+         (nverts : nat -> nat),
+       (forall (t : tape) (p : path) (h : herm) (m : nat) (vs : list vertex) (h' : herm),
+        leaf_eval t p h = LLeaf m vs h' -> length vs = nverts m) ->
+       (forall (p : path) (m : nat) (h h2 : herm) (vs : list vertex),
+        hsolve p m h = Some (h2, vs) -> length vs = nverts m) ->
+       forall V : tape -> path -> Prop,
+       (forall p : path, V root_tape p) ->
+       (forall (t : tape) (p : path) (sub : tape), V t p -> interval t p = IAmbig sub -> V sub p) ->
+       (forall (t : tape) (p : path) (sub : tape) (i : nat),
+        V t p -> interval t p = IAmbig sub -> i < 8 -> V sub (p ++ [i])) ->
+       (forall (t t' : tape) (p : path), V t p -> V t' p -> ires_sim (interval t p) (interval t' p)) ->
+       (forall (t t' : tape) (p : path) (h : herm),
+        V t p -> V t' p -> leaf_eval t p h = leaf_eval t' p h) ->
+       (forall (p : list nat) (i : nat),
+        length p < max_depth ->
+        i < 8 ->
+        interval root_tape p = IFull ->
+        fst
+          (T hdef interval leaf_eval collapsible hmerge hsolve (max_depth - S (length p)) root_tape
+             (p ++ [i]) hdef) = AFull) ->
+       (forall (p : list nat) (i : nat),
+        length p < max_depth ->
+        i < 8 ->
+        interval root_tape p = IEmpty ->
+        fst
+          (T hdef interval leaf_eval collapsible hmerge hsolve (max_depth - S (length p)) root_tape
+             (p ++ [i]) hdef) = AEmpty) ->
+       forall (cmt1 cmt2 : nat -> nat -> bool) (threads1 threads2 : nat),
+       1 <= max_depth ->
+       1 <= threads1 ->
+       1 <= threads2 ->
+       build_mt hdef root_tape max_depth interval leaf_eval collapsible hmerge hsolve cmt1
+         (mt_target max_depth threads1) <> Cancel ->
+       build_mt hdef root_tape max_depth interval leaf_eval collapsible hmerge hsolve cmt2
+         (mt_target max_depth threads2) <> Cancel ->
+       exists o1 o2 : octree vertex,
+         build_mt hdef root_tape max_depth interval leaf_eval collapsible hmerge hsolve cmt1
+           (mt_target max_depth threads1) = Ok o1 /\
+         build_mt hdef root_tape max_depth interval leaf_eval collapsible hmerge hsolve cmt2
+           (mt_target max_depth threads2) = Ok o2 /\
+         abs nverts o1 = abs nverts o2 /\
+         (forall a1 a2 : atree vertex,
+          abs nverts o1 = Some a1 -> abs nverts o2 = Some a2 -> leaf_verts a1 = leaf_verts a2).
+Proof. exact (@M2_threads). Qed.
+Print Assumptions C09_M2_threads.
+
+Theorem C09_M3_mt :
+  forall (vertex herm tape : Type) (hdef : herm) (root_tape : tape) 
+         (max_depth : nat) (interval : tape -> path -> ires tape)
+         (leaf_eval : tape -> path -> herm -> lres vertex herm)
+         (collapsible : list ckind -> option nat) (hmerge : list herm -> option herm)
+         (hsolve : path -> nat -> herm -> option (herm * list vertex)) 
+         (nverts : nat -> nat),
+       (forall (t : tape) (p : path) (h : herm) (m : nat) (vs : list vertex) (h' : herm),
+        leaf_eval t p h = LLeaf m vs h' -> length vs = nverts m) ->
+       (forall (p : path) (m : nat) (h h2 : herm) (vs : list vertex),
+        hsolve p m h = Some (h2, vs) -> length vs = nverts m) ->
+       forall (cmt : nat -> nat -> bool) (target : nat) (o : octree vertex),
+       build_mt hdef root_tape max_depth interval leaf_eval collapsible hmerge hsolve cmt target =
+       Ok o ->
+       wf_octree nverts o
+         (fst
+            (Dmt hdef root_tape max_depth interval leaf_eval collapsible hmerge hsolve
+               (K_of target) 0)) /\ blocks_ok o.
+Proof. exact (@M3_mt). Qed.
+Print Assumptions C09_M3_mt.
+
+Theorem C09_M3_reachable :
+  forall (vertex : Type) (nverts : nat -> nat) (o : octree vertex) 
+         (a : atree vertex) (j : nat),
+       wf_octree nverts o a ->
+       reach (cells o) (root o) j ->
+       exists blk : list cell, nth_error (cells o) j = Some blk /\ wfblk blk.
+Proof. exact (@M3_reachable). Qed.
+Print Assumptions C09_M3_reachable.
+
+Theorem C09_M4_st :
+  forall (vertex herm tape : Type) (hdef : herm) (root_tape : tape) 
+         (max_depth : nat) (interval : tape -> path -> ires tape)
+         (leaf_eval : tape -> path -> herm -> lres vertex herm)
+         (collapsible : list ckind -> option nat) (hmerge : list herm -> option herm)
+         (hsolve : path -> nat -> herm -> option (herm * list vertex)) 
+         (nverts : nat -> nat),
+       (forall (t : tape) (p : path) (h : herm) (m : nat) (vs : list vertex) (h' : herm),
+        leaf_eval t p h = LLeaf m vs h' -> length vs = nverts m) ->
+       (forall (p : path) (m : nat) (h h2 : herm) (vs : list vertex),
+        hsolve p m h = Some (h2, vs) -> length vs = nverts m) ->
+       forall canc : nat -> bool,
+       (build_st hdef root_tape max_depth interval leaf_eval collapsible hmerge hsolve canc =
+        Cancel <-> (exists k : nat, k < NP_st root_tape max_depth interval /\ canc k = true)) /\
+       (build_st hdef root_tape max_depth interval leaf_eval collapsible hmerge hsolve canc <>
+        Cancel ->
+        exists o : octree vertex,
+          build_st hdef root_tape max_depth interval leaf_eval collapsible hmerge hsolve canc =
+          Ok o /\
+          abs nverts o =
+          Some (T_st hdef root_tape max_depth interval leaf_eval collapsible hmerge hsolve)).
+Proof. exact (@M4_st). Qed.
+Print Assumptions C09_M4_st.
+
+Theorem C09_M4_mt :
+  forall (vertex herm tape : Type) (hdef : herm) (root_tape : tape) 
+         (max_depth : nat) (interval : tape -> path -> ires tape)
+         (leaf_eval : tape -> path -> herm -> lres vertex herm)
+         (collapsible : list ckind -> option nat) (hmerge : list herm -> option herm)
+         (hsolve : path -> nat -> herm -> option (herm * list vertex)) 
+         (nverts : nat -> nat),
+       (forall (t : tape) (p : path) (h : herm) (m : nat) (vs : list vertex) (h' : herm),
+        leaf_eval t p h = LLeaf m vs h' -> length vs = nverts m) ->
+       (forall (p : path) (m : nat) (h h2 : herm) (vs : list vertex),
+        hsolve p m h = Some (h2, vs) -> length vs = nverts m) ->
+       forall (cmt : nat -> nat -> bool) (target : nat),
+       let K := K_of target in
+       (build_mt hdef root_tape max_depth interval leaf_eval collapsible hmerge hsolve cmt target =
+        Cancel <->
+        (exists i k : nat,
+           i < 7 * K + 1 /\ k < NPn root_tape max_depth interval (K + i) /\ cmt i k = true)) /\
+       (2 <= target ->
+        build_mt hdef root_tape max_depth interval leaf_eval collapsible hmerge hsolve cmt target <>
+        Cancel ->
+        exists o : octree vertex,
+          build_mt hdef root_tape max_depth interval leaf_eval collapsible hmerge hsolve cmt target =
+          Ok o /\
+          abs nverts o =
+          Some
+            (fst (Dmt hdef root_tape max_depth interval leaf_eval collapsible hmerge hsolve K 0))) /\
+       (target <= 1 ->
+        build_mt hdef root_tape max_depth interval leaf_eval collapsible hmerge hsolve cmt target <>
+        Cancel ->
+        build_mt hdef root_tape max_depth interval leaf_eval collapsible hmerge hsolve cmt target =
+        Panic).
+Proof. exact (@M4_mt). Qed.
+Print Assumptions C09_M4_mt.
+
+Theorem C09_mt_depth0_panics :
+  forall (vertex herm tape : Type) (hdef : herm) (root_tape : tape) 
+         (max_depth : nat) (interval : tape -> path -> ires tape)
+         (leaf_eval : tape -> path -> herm -> lres vertex herm)
+         (collapsible : list ckind -> option nat) (hmerge : list herm -> option herm)
+         (hsolve : path -> nat -> herm -> option (herm * list vertex)) 
+         (nverts : nat -> nat),
+       (forall (t : tape) (p : path) (h : herm) (m : nat) (vs : list vertex) (h' : herm),
+        leaf_eval t p h = LLeaf m vs h' -> length vs = nverts m) ->
+       (forall (p : path) (m : nat) (h h2 : herm) (vs : list vertex),
+        hsolve p m h = Some (h2, vs) -> length vs = nverts m) ->
+       forall (cmt : nat -> nat -> bool) (threads : nat),
+       max_depth = 0 ->
+       1 <= threads ->
+       build_mt hdef root_tape max_depth interval leaf_eval collapsible hmerge hsolve cmt
+         (mt_target max_depth threads) <> Cancel ->
+       build_mt hdef root_tape max_depth interval leaf_eval collapsible hmerge hsolve cmt
+         (mt_target max_depth threads) = Panic.
+Proof. exact (@mt_depth0_panics). Qed.
+Print Assumptions C09_mt_depth0_panics.
+
+Theorem C09_demo_satisfies_M2 :
+  forall target : nat,
+       2 <= target <= 64 ->
+       exists omt ost : octree nat,
+         Demo.mt target = Ok omt /\
+         Demo.st = Ok ost /\ abs Demo.ex_nverts omt = abs Demo.ex_nverts ost.
+Proof. exact (@demo_satisfies_M2). Qed.
+Print Assumptions C09_demo_satisfies_M2.
+
+Theorem C09_M2_without_coherence_refuted :
+  ~
+       (forall (interval : unit -> path -> ires unit) (target : nat),
+        2 <= target <= 8 ^ 2 ->
+        abs_res Demo.ex_nverts
+          (build_mt 0 tt 2 interval Demo.ex_leaf Demo.ex_collapsible Demo.ex_hmerge Demo.ex_hsolve
+             (fun _ _ : nat => false) target) =
+        abs_res Demo.ex_nverts
+          (build_st 0 tt 2 interval Demo.ex_leaf Demo.ex_collapsible Demo.ex_hmerge Demo.ex_hsolve
+             (fun _ : nat => false))).
+Proof. exact (@M2_without_coherence_refuted). Qed.
+Print Assumptions C09_M2_without_coherence_refuted.
+
+Theorem C09_M2_without_tape_independence_refuted :
+  abs_res Demo2.ex_nverts (Demo2.mt 8) <> abs_res Demo2.ex_nverts Demo2.st.
+Proof. exact (@M2_without_tape_independence_refuted). Qed.
+Print Assumptions C09_M2_without_tape_independence_refuted.
